@@ -103,7 +103,7 @@ Definition c03_pinned_before_first_pods (c : case) : bool :=
       if (su_idx u =? 1) && sstate_eqb (su_state u) StInit && negb (strategy_empty (tr_strategy (tspec c) 1)) &&
          (* re-aligning the BatchRelease's rollout-id (syncBatchRelease, before the step runs) creates no pods: only a change
             beyond that one counts *)
-         negb (opt_eqb br_eqb (snd (sync_br u (rc_br i))) (ob_br o))
+         negb (opt_eqb br_eqb (snd (sync_br u (rc_br i))) (ob_br o)) && negb (opt_eqb br_eqb (rc_br i) (ob_br o))
       then match get_step (rc_spec i) 1 with
            | Some cur => full_step (rc_wl i) cur || opt_eqb String.eqb (n_stable_sel (x_obs_net c)) (Some (su_stable u))
            | None => true end
@@ -123,7 +123,7 @@ Definition c04_unpinned_before_full_step (c : case) : bool :=
       | Some cur =>
         if sstate_eqb (su_state u) StInit && negb (su_idx u =? 1) && negb (strategy_empty (tr_strategy (tspec c) (su_idx u))) &&
            full_step (rc_wl i) cur && n_stable_exists (x_net c) &&
-           negb (opt_eqb br_eqb (snd (sync_br u (rc_br i))) (ob_br o))
+           negb (opt_eqb br_eqb (snd (sync_br u (rc_br i))) (ob_br o)) && negb (opt_eqb br_eqb (rc_br i) (ob_br o))
         then match n_stable_sel (x_obs_net c) with Some r => sempty r | None => true end
         else true
       | None => true end
